@@ -12,7 +12,7 @@ import gram
 from impl import trees, treeinput, treeoutput, grammar, treeanalysis, quiet, clone
 
 ID = "C18"
-MODULE = ['TT.Props.C18', 'TT.Props.C18More', 'TT.Props.C18Run', 'TT.Props.C18Local', 'TT.Props.C18Local2']
+MODULE = ['TT.Props.C18', 'TT.Props.C18More', 'TT.Props.C18Run', 'TT.Props.C18Local', 'TT.Props.C18Local2', 'TT.Props.C18Src']
 RULE = ("(a) histories of 3..7 calls in one process (readers, writers, transformations incl. substitute/insert with two "
         "differently named terminal files, one of them with a duplicate index, grammar extraction/binarization/writing "
         "incl. lex_in_grammar written twice) each compared with the same call in a fresh process, under PYTHONHASHSEED "
